@@ -27,6 +27,19 @@ def compare(scn, vals, flags, errors, kind="ekf"):
     trace = []
     for e in errors:
         out.append(pyrep.Mismatch(step=-1, what="driver-flag", name=e, expected="consistent accessors", observed=e))
+    lay = scn.get("layout")
+    if lay:
+        def order(role):
+            m = vals.get((-1, "layout:" + role), {})
+            return [k for k, _ in sorted(m.items(), key=lambda kv: kv[1])]
+        checks = [("state", list(lay["state"])), ("control", list(lay["control"]))]
+        if kind == "ekf":
+            checks.append(("sensor", list(lay["sensors"])))
+            for key, rs in named(lay["readings"]).items():
+                checks.append(("reading:" + key, list(rs)))
+        for role, exp in checks:
+            if order(role) != exp:
+                out.append(pyrep.Mismatch(step=-1, what="layout", name=role, expected=exp, observed=order(role)))
     for i, st in enumerate(scn["steps"]):
         act = st["act"]
         rec = {}
